@@ -637,7 +637,7 @@ Proof.
   intros [->|H].
   - exists 0. split. rewrite Rabs_R0. unfold u32; lra.
     rewrite round_0 by auto with typeclass_instances. ring.
-  - destruct (relative_error_N_FLT_ex radix2 (-149) 24 (fun x => negb (Z.even x)) x H) as [e [He1 He2]].
+  - destruct (relative_error_N_FLT_ex radix2 (-149) 24 prec24_gt_0 (fun x => negb (Z.even x)) x H) as [e [He1 He2]].
     exists e. split; [|exact He2].
     replace u32 with (/ 2 * bpow radix2 (-24 + 1)). exact He1.
     unfold u32. change (bpow radix2 (-24 + 1)) with (/ 8388608). lra.
@@ -647,10 +647,10 @@ Lemma rnd64_rel x :
   bpow radix2 (-1022) <= Rabs x -> exists e, Rabs e <= u32 /\ rnd64 x = x * (1 + e).
 Proof.
   intros H.
-  destruct (relative_error_N_FLT_ex radix2 (-1074) 53 (fun x => negb (Z.even x)) x H) as [e [He1 He2]].
+  destruct (relative_error_N_FLT_ex radix2 (-1074) 53 prec53_gt_0 (fun x => negb (Z.even x)) x H) as [e [He1 He2]].
   exists e. split; [|exact He2].
   eapply Rle_trans. exact He1.
-  change (bpow radix2 (-53 + 1)) with (/ 4503599627370496). unfold u32. lra.
+  change (bpow radix2 (- (53) + 1)) with (/ 4503599627370496). unfold u32. lra.
 Qed.
 
 Lemma near_rnd32 k x y :
@@ -741,6 +741,152 @@ Proof.
   apply near_rnd32. lra.
   { right. apply small_ge_bpow_m126. lra. }
   apply near_rnd64. lra.
-  { eapply Rle_trans; [|apply Hb]. change (/ 16) with (bpow radix2 (-4)). apply bpow_le. lia. }
+  { apply Rle_trans with (/ 16); [|lra]. change (/ 16) with (bpow radix2 (-4)). apply bpow_le. lia. }
   apply near_refl.
 Qed.
+
+Lemma near_scale_r k c x y : 0 <= c -> near k x y -> near k (x * c) (y * c).
+Proof. intros Hc H. rewrite (Rmult_comm x), (Rmult_comm y). apply near_scale; assumption. Qed.
+
+Lemma zero_or_normal x c :
+  x = 0 \/ c <= x -> / 67108864 <= c -> x = 0 \/ bpow radix2 (-126) <= x.
+Proof. intros [H|H] Hc; [left; exact H|right]. apply small_ge_bpow_m126. lra. Qed.
+
+(* Accuracy on the explicit box
+     tf  in [1, 2^10]      dl in {0} U [1, 2^12]     avg in [1, 2^12]
+     idf in [2^-10, 2^5]   k1 in [2^-4, 4]           b   in [2^-4, 1 - 2^-4]      (all finite binary32)
+   the kernel's result is finite and within relative error 2^-20 of bm25_R on the inputs' real values
+   (12 accumulated roundings at unit roundoff 2^-24). *)
+Theorem bm25_accuracy_partial tf dl avg idf k1 b :
+  fin32 tf = true -> 1 <= R32 tf <= 1024 ->
+  fin32 dl = true -> (R32 dl = 0 \/ 1 <= R32 dl <= 4096) ->
+  fin32 avg = true -> 1 <= R32 avg <= 4096 ->
+  fin32 idf = true -> / 1024 <= R32 idf <= 32 ->
+  fin32 k1 = true -> / 16 <= R32 k1 <= 4 ->
+  fin32 b = true -> / 16 <= R32 b <= 15 / 16 ->
+  let exact := bm25_R (R32 idf) (R32 tf) (R32 dl) (R32 avg) (R32 k1) (R32 b) in
+  let res := bm25_one tf dl avg idf k1 b (one_minus b) in
+  fin32 res = true /\ 0 < exact /\ near 12 (R32 res) exact /\
+  Rabs (R32 res - exact) <= bpow radix2 (-20) * Rabs exact.
+Proof.
+  intros Ftf Htf Fdl Hdl Favg Havg Fidf Hidf Fk1 Hk1 Fb Hb exact res.
+  destruct (one_minus_near b Fb Hb) as (Fo & Ho & No).
+  unfold res, bm25_one. rewrite nonzero_not_is_zero32 by lra.
+  set (omb := one_minus b) in *.
+  set (T := R32 tf) in *. set (L := R32 dl) in *. set (A := R32 avg) in *.
+  set (I := R32 idf) in *. set (K := R32 k1) in *. set (B := R32 b) in *.
+  set (Q0 := L / A). set (S0 := 1 - B + B * Q0). set (D0 := T + K * S0).
+  (* exact quantities *)
+  assert (HiA : / 4096 <= / A <= 1).
+  { split. apply Rinv_le_contravar; lra.
+    replace 1 with (/ 1) by lra. apply Rinv_le_contravar; lra. }
+  assert (HQ0 : 0 <= Q0 <= 4096 /\ (Q0 = 0 \/ / 4096 <= Q0)).
+  { unfold Q0, Rdiv. destruct Hdl as [E|Hdl].
+    - rewrite E, Rmult_0_l. split. lra. left; reflexivity.
+    - split. nra. right. nra. }
+  destruct HQ0 as [BQ0 ZQ0].
+  assert (HS0 : / 16 <= S0) by (unfold S0; nra).
+  assert (HD0 : 1 <= D0) by (unfold D0; nra).
+  (* q = dl / avg *)
+  destruct (op_box32 Q0 0 4096) as [Oq Bq];
+    [apply gf32_0 | gf_pow2 12%Z | lra | lra | exact BQ0 |].
+  destruct (fdiv_correct dl avg Fdl) as [Rq Fq]; [fold A; lra | exact Oq |].
+  fold L A Q0 in Rq. rewrite <- Rq in Bq.
+  assert (Zq : R32 (fdiv dl avg) = 0 \/ / 4096 <= R32 (fdiv dl avg)).
+  { rewrite Rq. destruct ZQ0 as [E|H]; [left|right].
+    rewrite E. apply round_0; auto with typeclass_instances.
+    apply rnd32_ge. gf_pow2 (-12)%Z. exact H. }
+  assert (Nq : near 1 (R32 (fdiv dl avg)) Q0).
+  { rewrite Rq. apply near_rnd32. lra. apply (zero_or_normal _ _ ZQ0); lra. apply near_refl. }
+  set (q := fdiv dl avg) in *.
+  (* p = b * q *)
+  assert (HP : 0 <= B * R32 q <= 4096 /\ (B * R32 q = 0 \/ / 65536 <= B * R32 q)).
+  { split. nra. destruct Zq as [E|H]; [left|right]. rewrite E; ring. nra. }
+  destruct HP as [BP ZP].
+  destruct (op_box32 (B * R32 q) 0 4096) as [Op Bp];
+    [apply gf32_0 | gf_pow2 12%Z | lra | lra | exact BP |].
+  destruct (fmul_correct b q Fb Fq) as [Rp Fp]; [exact Op|].
+  fold B in Rp. rewrite <- Rp in Bp.
+  assert (Np : near 2 (R32 (fmul b q)) (B * Q0)).
+  { rewrite Rp. apply near_rnd32. nra. apply (zero_or_normal _ _ ZP); lra.
+    apply near_scale. lra. exact Nq. }
+  set (p := fmul b q) in *.
+  (* s = omb + p *)
+  destruct (op_box32 (R32 omb + R32 p) (/ 16) 8192) as [Os Bs];
+    [gf_pow2 (-4)%Z | gf_pow2 13%Z | lra | lra | lra |].
+  destruct (fadd_correct omb p Fo Fp) as [Rs Fs]; [exact Os|].
+  rewrite <- Rs in Bs.
+  assert (Ns : near 3 (R32 (fadd omb p)) S0).
+  { rewrite Rs. apply near_rnd32. lra. right; apply small_ge_bpow_m126; lra.
+    unfold S0. apply near_add. exact No. exact Np. }
+  set (s := fadd omb p) in *.
+  (* t = k1 * s *)
+  destruct (op_box32 (K * R32 s) (/ 256) 32768) as [Ot Bt];
+    [gf_pow2 (-8)%Z | gf_pow2 15%Z | lra | lra | nra |].
+  destruct (fmul_correct k1 s Fk1 Fs) as [Rt Ft]; [exact Ot|].
+  fold K in Rt. rewrite <- Rt in Bt.
+  assert (Nt : near 4 (R32 (fmul k1 s)) (K * S0)).
+  { rewrite Rt. apply near_rnd32. nra. right; apply small_ge_bpow_m126; nra.
+    apply near_scale. lra. exact Ns. }
+  set (t := fmul k1 s) in *.
+  (* den = tf + t *)
+  destruct (op_box32 (T + R32 t) 1 65536) as [Od Bd];
+    [apply gf32_1 | gf_pow2 16%Z | lra | lra | lra |].
+  destruct (fadd_correct tf t Ftf Ft) as [Rd Fd]; [exact Od|].
+  fold T in Rd. rewrite <- Rd in Bd.
+  assert (Nd : near 5 (R32 (fadd tf t)) D0).
+  { rewrite Rd. apply near_rnd32. lra. right; apply small_ge_bpow_m126; lra.
+    unfold D0. apply near_add. apply (near_le 0 4). lia. lra. apply near_refl. exact Nt. }
+  set (den := fadd tf t) in *.
+  (* r = tf / den *)
+  assert (Hid : / 65536 <= / R32 den <= 1).
+  { split. apply Rinv_le_contravar; lra.
+    replace 1 with (/ 1) by lra. apply Rinv_le_contravar; lra. }
+  destruct (op_box32 (T / R32 den) (/ 65536) 1024) as [Or Br];
+    [gf_pow2 (-16)%Z | gf_pow2 10%Z | lra | lra | unfold Rdiv; nra |].
+  destruct (fdiv_correct tf den Ftf) as [Rr Fr]; [lra | exact Or |].
+  fold T in Rr. rewrite <- Rr in Br.
+  assert (HiD : 0 < / D0) by (apply Rinv_0_lt_compat; lra).
+  assert (Nr : near 11 (R32 (fdiv tf den)) (T * / D0)).
+  { rewrite Rr. apply near_rnd32. nra.
+    right; apply small_ge_bpow_m126; unfold Rdiv; nra.
+    unfold Rdiv. apply near_scale. lra. apply (near_inv 5). lra. exact Nd. }
+  set (r := fdiv tf den) in *.
+  (* res = r * idf *)
+  destruct (op_box32 (R32 r * I) (/ 67108864) 32768) as [Ores Bres];
+    [gf_pow2 (-26)%Z | gf_pow2 15%Z | lra | lra | nra |].
+  destruct (fmul_correct r idf Fr Fidf) as [Rres Fres]; [exact Ores|].
+  fold I in Rres.
+  assert (Nres : near 12 (R32 (fmul r idf)) (T * / D0 * I)).
+  { rewrite Rres. apply near_rnd32. nra.
+    right; apply small_ge_bpow_m126; nra.
+    apply near_scale_r. lra. exact Nr. }
+  assert (Eex : exact = T * / D0 * I).
+  { unfold exact, bm25_R, D0, S0, Q0, Rdiv. fold I T L A K B.
+    replace (B * L * / A) with (B * (L * / A)) by ring. ring. }
+  assert (Pex : 0 < exact) by (rewrite Eex; nra).
+  rewrite <- Eex in Nres.
+  split. exact Fres. split. exact Pex. split. exact Nres.
+  rewrite (Rabs_pos_eq exact) by lra.
+  change (bpow radix2 (-20)) with (/ 1048576).
+  apply near12_rel. lra. exact Nres.
+Qed.
+
+(* the weaker 2^-17 bound asked for in the plan *)
+Corollary bm25_accuracy_2pm17 tf dl avg idf k1 b :
+  fin32 tf = true -> 1 <= R32 tf <= 1024 ->
+  fin32 dl = true -> (R32 dl = 0 \/ 1 <= R32 dl <= 4096) ->
+  fin32 avg = true -> 1 <= R32 avg <= 4096 ->
+  fin32 idf = true -> / 1024 <= R32 idf <= 32 ->
+  fin32 k1 = true -> / 16 <= R32 k1 <= 4 ->
+  fin32 b = true -> / 16 <= R32 b <= 15 / 16 ->
+  let exact := bm25_R (R32 idf) (R32 tf) (R32 dl) (R32 avg) (R32 k1) (R32 b) in
+  Rabs (R32 (bm25_one tf dl avg idf k1 b (one_minus b)) - exact) <= bpow radix2 (-17) * Rabs exact.
+Proof.
+  intros Ftf Htf Fdl Hdl Favg Havg Fidf Hidf Fk1 Hk1 Fb Hb exact.
+  destruct (bm25_accuracy_partial tf dl avg idf k1 b) as (_ & _ & _ & H); try assumption.
+  eapply Rle_trans. exact H. apply Rmult_le_compat_r. apply Rabs_pos.
+  apply bpow_le. lia.
+Qed.
+
+End Accuracy.
